@@ -16,7 +16,7 @@ From ClapModel Require Import Complete.EngineModel Complete.EngineProofs.
 From ClapModel Require Import Parse.Cmd Parse.Build Parse.Valid Parse.Matcher Parse.Errors Parse.Validator Parse.Parser.
 From ClapModel Require Import ParseProofs.Spelling ParseProofs.Dispatch ParseProofs.ErrorSound.
 From ClapModel Require Import ParseProofs.Actions ParseProofs.ActionsLoop ParseProofs.ActionsTop ParseProofs.Chain ParseProofs.ChainWide.
-From ClapModel Require Import Complete.EngineAccept Complete.EngineLevel Complete.EngineLine.
+From ClapModel Require Import Complete.EngineAccept Complete.EngineLevel Complete.EngineLine Complete.EngineOptState.
 From ClapModel Require ParseProofs.UnparseLift ParseProofs.UnparseProofs ParseProofs.Globals.
 From Coq Require Import ZArith Lia List Bool.
 From RecordUpdate Require Import RecordSet.
@@ -200,7 +200,81 @@ Proof.
   cbn [p_raw]. rewrite with_raw_open. reflexivity.
 Qed.
 
+(** the value TERMINATOR of the pending option: the occurrence is closed, the word is dropped, nothing is pushed *)
+Lemma loop_value_term c tok rest pos vaf st a :
+  no_sub c tok -> is_escape tok = false -> to_long tok = None -> to_short tok = None ->
+  find_arg c (a_id a) = Some a -> check_terminator a tok = true ->
+  parse_loop c (tok :: rest) (mkL (PSOpt (a_id a)) pos vaf false) st = parse_loop c rest (lsV pos vaf) st.
+Proof.
+  intros Hns He Hl Hs Hf Hct. cbn [parse_loop l_trailing l_pst l_vaf l_pos].
+  replace (if is_set s_sub_precedence c || false then possible_subcommand c tok vaf else None) with (@None bytes)
+    by (destruct (is_set s_sub_precedence c); cbn [orb]; [rewrite (Hns vaf)|]; reflexivity).
+  rewrite He, Hl, Hs. cbn [rbind l_trailing l_pst l_vaf l_pos]. rewrite Hf. cbn [expect rbind]. rewrite Hct. reflexivity.
+Qed.
+
+(** `--opt v1 .. vj ;` / `-o v1 .. vj ;`: [j] values below the maximum, then the terminator *)
+Lemma loop_long_term c tok f a r vs t rest pos vaf st :
+  no_sub c tok -> to_long tok = Some (f, true, None) -> get_long c f = Some a -> a_takes_value a = true ->
+  a_req_eq a = false -> find_arg c (a_id a) = Some a -> a_num a = Some r ->
+  N.of_nat (length vs) < vmax r -> Forall (value_tok c a) vs ->
+  no_sub c t -> plain_tok t -> check_terminator a t = true ->
+  parse_loop c (tok :: (vs ++ [t]) ++ rest) (lsV pos vaf) st =
+  (do st' <- sepm_fn c ILong a vs st; parse_loop c rest (lsV pos true) st').
+Proof.
+  intros Hns Hl Hg Htv Hre Hf Hn Hlen Hall Hnst [Het [Hlt Hst]] Hct.
+  rewrite (loop_long_open c tok f a ((vs ++ [t]) ++ rest) pos vaf st Hns Hl Hg Htv Hre).
+  unfold sepm_fn. destruct (resolve_pending c st) as [st1|e s1|x]; cbn [rbind]; try reflexivity.
+  rewrite <- app_assoc.
+  rewrite (loop_values_open c a r Hf Hn vs ([t] ++ rest) pos true _ (mkPending (a_id a) (Some ILong) [] None) Hall);
+    [|cbn [p_raw length]; lia|reflexivity|reflexivity].
+  cbn [p_raw]. rewrite with_raw_open. cbn [app].
+  apply (loop_value_term c t rest pos true _ a Hnst Het Hlt Hst Hf Hct).
+Qed.
+
+Lemma loop_short_term c tok r0 ch a r vs t rest pos vaf st :
+  no_sub c tok -> is_escape tok = false -> to_long tok = None -> to_short tok = Some r0 ->
+  sf_next r0 = Some (inl ch, []) -> get_short c ch = Some a -> a_takes_value a = true ->
+  a_req_eq a = false -> no_hyphen c -> find_arg c (a_id a) = Some a -> a_num a = Some r ->
+  N.of_nat (length vs) < vmax r -> Forall (value_tok c a) vs ->
+  no_sub c t -> plain_tok t -> check_terminator a t = true -> fs_skip st = 0 ->
+  parse_loop c (tok :: (vs ++ [t]) ++ rest) (lsV pos vaf) st =
+  (do st' <- sepm_fn c IShort a vs st; parse_loop c rest (lsV pos true) st').
+Proof.
+  intros Hns He Hl Hs Hnx Hg Htv Hre Hpos Hf Hn Hlen Hall Hnst [Het [Hlt Hst]] Hct Hsk.
+  rewrite (loop_short_open c tok r0 ch a ((vs ++ [t]) ++ rest) pos vaf st Hns He Hl Hs Hnx Hg Htv Hre Hpos Hsk).
+  unfold sepm_fn. destruct (resolve_pending c st) as [st1|e s1|x]; cbn [rbind]; try reflexivity.
+  rewrite <- app_assoc.
+  rewrite (loop_values_open c a r Hf Hn vs ([t] ++ rest) pos true _ (mkPending (a_id a) (Some IShort) [] None) Hall);
+    [|cbn [p_raw length]; lia|reflexivity|reflexivity].
+  cbn [p_raw]. rewrite with_raw_open. cbn [app].
+  apply (loop_value_term c t rest pos true _ a Hnst Het Hlt Hst Hf Hct).
+Qed.
+
+(** `--opt` of an option that REQUIRES `=`, given without it, minimum 0: a complete occurrence without values
+    ([Parser::parse_opt_value]: "Requires equals, but min_vals == 0"), exactly like a flag's *)
+Lemma loop_long_reqeq c tok f a r rest pos vaf st :
+  no_sub c tok -> to_long tok = Some (f, true, None) -> get_long c f = Some a -> a_takes_value a = true ->
+  a_req_eq a = true -> a_num a = Some r -> vmin r = 0 ->
+  parse_loop c (tok :: rest) (lsV pos vaf) st =
+  (do st' <- react_all c [long_occ a []] st; parse_loop c rest (lsV pos true) st').
+Proof.
+  intros Hns Hl Hg Htv Hre Hn Hmin. unfold lsV. cbn [parse_loop l_trailing l_pst l_vaf l_pos].
+  rewrite orb_true_r, (Hns vaf), (to_long_not_escape _ _ Hl), Hl.
+  rewrite parse_long_arg_unfold. cbn [state_arg rbind negb].
+  rewrite (to_long_flag_nonempty _ _ _ Hl). cbn [andb].
+  rewrite (long_exact_wins c f a Hg). unfold parse_long_found. rewrite Htv.
+  unfold parse_opt_value. cbn [is_some negb]. rewrite Hre. cbn [andb]. rewrite Hn. cbn [expect rbind]. rewrite Hmin.
+  change (0 =? 0) with true. cbn iota.
+  cbn [react_all long_occ o_ident o_src o_arg o_raw o_ti].
+  destruct (react c (Some ILong) SCmdLine a [] None st) as [[st1 pr]|e st1|site] eqn:Er; cbn [rbind fst snd]; try reflexivity.
+Qed.
+
 (** * The wider items *)
+
+(** no argument of the level accepts hyphen values or negative numbers (a word that looks like an option is one) *)
+Definition hyphen_free (c : cmd) : Prop :=
+  forallb (fun a => negb (a_negnum a) && negb (a_hyphen a)) (c_args c) = true.
+
 Inductive item18 (c : cmd) : list bytes -> (ps -> res ps) -> Prop :=
 | i18_base toks F : item c toks F -> item18 c toks F
 | i18_short_eq tok r ch v a :        (* `-o=v` *)
@@ -218,25 +292,157 @@ Inductive item18 (c : cmd) : list bytes -> (ps -> res ps) -> Prop :=
     sf_next r0 = Some (inl ch, []) -> get_short c ch = Some a -> a_takes_value a = true ->
     a_req_eq a = false -> no_hyphen c -> find_arg c (a_id a) = Some a -> a_num a = Some r ->
     vs <> [] -> N.of_nat (length vs) = vmax r -> Forall (value_tok c a) vs ->
-    item18 c (tok :: vs) (sepm_fn c IShort a vs).
+    item18 c (tok :: vs) (sepm_fn c IShort a vs)
+| i18_long_term tok f a r vs t :     (* `--opt v1 .. vj ;`: j below the maximum, `;` = the option's value terminator *)
+    no_sub c tok -> to_long tok = Some (f, true, None) -> get_long c f = Some a -> a_takes_value a = true ->
+    a_req_eq a = false -> find_arg c (a_id a) = Some a -> a_num a = Some r ->
+    N.of_nat (length vs) < vmax r -> Forall (value_tok c a) vs ->
+    no_sub c t -> plain_tok t -> check_terminator a t = true ->
+    item18 c (tok :: vs ++ [t]) (sepm_fn c ILong a vs)
+| i18_short_term tok r0 ch a r vs t : (* `-o v1 .. vj ;` *)
+    no_sub c tok -> is_escape tok = false -> to_long tok = None -> to_short tok = Some r0 ->
+    sf_next r0 = Some (inl ch, []) -> get_short c ch = Some a -> a_takes_value a = true ->
+    a_req_eq a = false -> no_hyphen c -> find_arg c (a_id a) = Some a -> a_num a = Some r ->
+    N.of_nat (length vs) < vmax r -> Forall (value_tok c a) vs ->
+    no_sub c t -> plain_tok t -> check_terminator a t = true ->
+    item18 c (tok :: vs ++ [t]) (sepm_fn c IShort a vs)
+| i18_long_reqeq tok f a r :          (* `--opt` of an option that requires `=`, without it, minimum 0: complete, no values *)
+    no_sub c tok -> to_long tok = Some (f, true, None) -> get_long c f = Some a -> a_takes_value a = true ->
+    a_req_eq a = true -> a_num a = Some r -> vmin r = 0 ->
+    item18 c [tok] (react_all c [long_occ a []])
+| i18_long_partial tok f a r vs toks2 F2 :  (* `--opt v1 .. vj` PARTIALLY FILLED (j below the maximum), then another option item *)
+    hyphen_free c ->
+    no_sub c tok -> to_long tok = Some (f, true, None) -> get_long c f = Some a -> a_takes_value a = true ->
+    a_req_eq a = false -> find_arg c (a_id a) = Some a -> a_num a = Some r ->
+    N.of_nat (length vs) < vmax r -> Forall (value_tok c a) vs ->
+    item18 c toks2 F2 ->
+    item18 c (tok :: vs ++ toks2) (fun st => do st' <- sepm_fn c ILong a vs st; F2 st')
+| i18_short_partial tok r0 ch a r vs toks2 F2 : (* `-o v1 .. vj`, then another option item *)
+    hyphen_free c ->
+    no_sub c tok -> is_escape tok = false -> to_long tok = None -> to_short tok = Some r0 ->
+    sf_next r0 = Some (inl ch, []) -> get_short c ch = Some a -> a_takes_value a = true ->
+    a_req_eq a = false -> no_hyphen c -> find_arg c (a_id a) = Some a -> a_num a = Some r ->
+    N.of_nat (length vs) < vmax r -> Forall (value_tok c a) vs ->
+    item18 c toks2 F2 ->
+    item18 c (tok :: vs ++ toks2) (fun st => do st' <- sepm_fn c IShort a vs st; F2 st').
 
-Lemma item18_step c toks F : item18 c toks F -> forall rest pos vaf st, fs_skip st = 0 ->
-  parse_loop c (toks ++ rest) (lsV pos vaf) st = (do st' <- F st; parse_loop c rest (lsV pos true) st').
+(** every item starts with a word that is lexed as an exact long key or as a non-empty short cluster *)
+Lemma sf_next_nonempty r x : sf_next r = Some x -> r <> [].
+Proof. intros H ->. cbn in H. discriminate. Qed.
+
+Lemma cluster_token_dash c tok os : no_sub c tok -> cluster_token c tok os -> dash_tok c tok.
 Proof.
-  intros Hi rest pos vaf st Hfs. destruct Hi; cbn [app].
-  - apply item_step; assumption.
-  - apply (loop_short_eq c tok r ch v a); assumption.
-  - apply (loop_long_multi c tok f a r vs); assumption.
-  - apply (loop_short_multi c tok r0 ch a r vs); assumption.
+  intros Hns [ch [r [Et [Hne [Hd Hc]]]]]. subst tok.
+  assert (E45 : (ch =? 45) = false) by (apply N.eqb_neq; exact Hne).
+  split; [exact Hns|]. split.
+  - unfold is_escape, DASH. cbn [beq]. rewrite E45. reflexivity.
+  - right. split.
+    + unfold to_long, strip_prefix, DASH. cbn [starts_with]. rewrite E45. reflexivity.
+    + exists (ch :: r). split; [|discriminate].
+      unfold to_short, strip_prefix, DASH. cbn [starts_with length skipn].
+      change ((45 =? 45) && true) with true. cbn iota. cbn [starts_with]. rewrite E45. reflexivity.
+Qed.
+
+Lemma item_head c toks F : item c toks F -> exists t0 ts, toks = t0 :: ts /\ dash_tok c t0.
+Proof.
+  intros Hi. destruct Hi.
+  - exists tok, []. split; [reflexivity|]. split; [assumption|]. split; [eapply to_long_not_escape; eauto|]. left. eauto.
+  - exists tok, []. split; [reflexivity|]. split; [assumption|]. split; [eapply to_long_not_escape; eauto|]. left. eauto.
+  - exists tok, [v]. split; [reflexivity|]. split; [assumption|]. split; [eapply to_long_not_escape; eauto|]. left. eauto.
+  - exists tok, []. split; [reflexivity|]. eapply cluster_token_dash; eauto.
+  - exists tok, []. split; [reflexivity|]. split; [assumption|]. split; [assumption|]. right. split; [assumption|].
+    exists r. split; [assumption|eapply sf_next_nonempty; eauto].
+  - exists tok, [v]. split; [reflexivity|]. split; [assumption|]. split; [assumption|]. right. split; [assumption|].
+    exists r0. split; [assumption|eapply sf_next_nonempty; eauto].
+Qed.
+
+Lemma item18_head c toks F : item18 c toks F -> exists t0 ts, toks = t0 :: ts /\ dash_tok c t0.
+Proof.
+  intros Hi. destruct Hi.
+  - eapply item_head; eauto.
+  - exists tok, []. split; [reflexivity|]. split; [assumption|]. split; [assumption|]. right. split; [assumption|].
+    exists r. split; [assumption|eapply sf_next_nonempty; eauto].
+  - exists tok, vs. split; [reflexivity|]. split; [assumption|]. split; [eapply to_long_not_escape; eauto|]. left. eauto.
+  - exists tok, vs. split; [reflexivity|]. split; [assumption|]. split; [assumption|]. right. split; [assumption|].
+    exists r0. split; [assumption|eapply sf_next_nonempty; eauto].
+  - exists tok, (vs ++ [t]). split; [reflexivity|]. split; [assumption|]. split; [eapply to_long_not_escape; eauto|]. left. eauto.
+  - exists tok, (vs ++ [t]). split; [reflexivity|]. split; [assumption|]. split; [assumption|]. right. split; [assumption|].
+    exists r0. split; [assumption|eapply sf_next_nonempty; eauto].
+  - exists tok, []. split; [reflexivity|]. split; [assumption|]. split; [eapply to_long_not_escape; eauto|]. left. eauto.
+  - exists tok, (vs ++ toks2). split; [reflexivity|]. split; [assumption|]. split; [eapply to_long_not_escape; eauto|]. left. eauto.
+  - exists tok, (vs ++ toks2). split; [reflexivity|]. split; [assumption|]. split; [assumption|]. right. split; [assumption|].
+    exists r0. split; [assumption|eapply sf_next_nonempty; eauto].
+Qed.
+
+Lemma hyphen_free_arg c a : hyphen_free c -> find_arg c (a_id a) = Some a -> a_hyphen a = false /\ a_negnum a = false.
+Proof.
+  unfold hyphen_free. intros H Hf. rewrite forallb_forall in H.
+  assert (Hin : In a (c_args c)) by (unfold find_arg in Hf; apply find_some in Hf; tauto).
+  specialize (H a Hin). apply andb_true_iff in H. destruct H as [H1 H2].
+  apply negb_true_iff in H1. apply negb_true_iff in H2. split; assumption.
+Qed.
+
+(** the parser's loop behind a partially filled occurrence of [a], on an item: as between arguments *)
+Lemma loop_partial_then c a toks2 F2 : hyphen_free c -> find_arg c (a_id a) = Some a -> item18 c toks2 F2 ->
+  forall rest pos vaf st, fs_skip st = 0 ->
+  parse_loop c (toks2 ++ rest) (mkL (PSOpt (a_id a)) pos vaf false) st = parse_loop c (toks2 ++ rest) (lsV pos vaf) st.
+Proof.
+  intros Hhf Hf Hi rest pos vaf st Hsk.
+  destruct (item18_head c toks2 F2 Hi) as [t0 [ts [-> Hd]]]. cbn [app].
+  destruct (hyphen_free_arg c a Hhf Hf) as [Hh Hn].
+  exact (loop_opt_dash c t0 a (ts ++ rest) pos vaf st Hf Hh Hn (no_hyphen_of_args c Hhf) Hsk Hd).
 Qed.
 
 Lemma item18_fs c toks F : item18 c toks F -> forall st st', F st = ROk st' -> fs_skip st' = fs_skip st /\ fs_at st' = fs_at st.
 Proof.
-  intros Hi st st' H. destruct Hi.
+  induction 1 as [toks F Hi| | | | | | |tok f a r vs toks2 F2 Hhf Hns Hl Hg Htv Hre Hf Hn Hlen Hall Hi2 IH
+                 |tok r0 ch a r vs toks2 F2 Hhf Hns He Hl Hs Hnx Hg Htv Hre Hnh Hf Hn Hlen Hall Hi2 IH]; intros st st' HF.
   - split; [eapply item_fs; eauto|eapply item_fsat; eauto].
-  - split; [apply (react_all_fs _ _ _ _ H)|apply (react_all_fsat _ _ _ _ H)].
+  - split; [apply (react_all_fs _ _ _ _ HF)|apply (react_all_fsat _ _ _ _ HF)].
   - eapply sepm_fn_fs; eauto.
   - eapply sepm_fn_fs; eauto.
+  - eapply sepm_fn_fs; eauto.
+  - eapply sepm_fn_fs; eauto.
+  - split; [apply (react_all_fs _ _ _ _ HF)|apply (react_all_fsat _ _ _ _ HF)].
+  - destruct (sepm_fn c ILong a vs st) as [st1|e s1|x] eqn:E; cbn [rbind] in HF; try discriminate.
+    destruct (IH _ _ HF) as [H1 H2]. destruct (sepm_fn_fs _ _ _ _ _ _ E) as [H3 H4]. rewrite H1, H2. split; assumption.
+  - destruct (sepm_fn c IShort a vs st) as [st1|e s1|x] eqn:E; cbn [rbind] in HF; try discriminate.
+    destruct (IH _ _ HF) as [H1 H2]. destruct (sepm_fn_fs _ _ _ _ _ _ E) as [H3 H4]. rewrite H1, H2. split; assumption.
+Qed.
+
+Lemma item18_step c toks F : item18 c toks F -> forall rest pos vaf st, fs_skip st = 0 ->
+  parse_loop c (toks ++ rest) (lsV pos vaf) st = (do st' <- F st; parse_loop c rest (lsV pos true) st').
+Proof.
+  induction 1 as [toks F Hi| | | | | | |tok f a r vs toks2 F2 Hhf Hns Hl Hg Htv Hre Hf Hn Hlen Hall Hi2 IH
+                 |tok r0 ch a r vs toks2 F2 Hhf Hns He Hl Hs Hnx Hg Htv Hre Hnh Hf Hn Hlen Hall Hi2 IH];
+    intros rest pos vaf st Hfs; cbn [app].
+  - apply item_step; assumption.
+  - apply (loop_short_eq c tok r ch v a); assumption.
+  - apply (loop_long_multi c tok f a r vs); assumption.
+  - apply (loop_short_multi c tok r0 ch a r vs); assumption.
+  - apply (loop_long_term c tok f a r vs t); assumption.
+  - apply (loop_short_term c tok r0 ch a r vs t); assumption.
+  - apply (loop_long_reqeq c tok f a r); assumption.
+  - rewrite <- app_assoc.
+    rewrite (loop_long_open c tok f a (vs ++ toks2 ++ rest) pos vaf st Hns Hl Hg Htv Hre).
+    unfold sepm_fn. destruct (resolve_pending c st) as [st1|e s1|x] eqn:RP; cbn [rbind]; try reflexivity.
+    rewrite (loop_values_open c a r Hf Hn vs (toks2 ++ rest) pos true _ (mkPending (a_id a) (Some ILong) [] None) Hall);
+      [|cbn [p_raw length]; lia|reflexivity|reflexivity].
+    cbn [p_raw]. rewrite with_raw_open.
+    assert (Hfs1 : fs_skip (st1 <| mt := (mt st1) <| mt_pending := Some (mkPending (a_id a) (Some ILong) vs None) |> |>) = 0).
+    { cbn. rewrite (resolve_pending_fs c st st1 RP). exact Hfs. }
+    rewrite (loop_partial_then c a toks2 F2 Hhf Hf Hi2 rest pos true _ Hfs1).
+    exact (IH rest pos true _ Hfs1).
+  - rewrite <- app_assoc.
+    rewrite (loop_short_open c tok r0 ch a (vs ++ toks2 ++ rest) pos vaf st Hns He Hl Hs Hnx Hg Htv Hre Hnh Hfs).
+    unfold sepm_fn. destruct (resolve_pending c st) as [st1|e s1|x] eqn:RP; cbn [rbind]; try reflexivity.
+    rewrite (loop_values_open c a r Hf Hn vs (toks2 ++ rest) pos true _ (mkPending (a_id a) (Some IShort) [] None) Hall);
+      [|cbn [p_raw length]; lia|reflexivity|reflexivity].
+    cbn [p_raw]. rewrite with_raw_open.
+    assert (Hfs1 : fs_skip (st1 <| mt := (mt st1) <| mt_pending := Some (mkPending (a_id a) (Some IShort) vs None) |> |>) = 0).
+    { cbn. rewrite (resolve_pending_fs c st st1 RP). exact Hfs. }
+    rewrite (loop_partial_then c a toks2 F2 Hhf Hf Hi2 rest pos true _ Hfs1).
+    exact (IH rest pos true _ Hfs1).
 Qed.
 
 Lemma item18_nonempty c toks F : item18 c toks F -> is_nil toks = false.
@@ -244,11 +450,23 @@ Proof. intros Hi. destruct Hi; try reflexivity. eapply item_nonempty; eauto. Qed
 
 Lemma item18_err c toks F : item18 c toks F -> forall st e s, F st = RErr e s -> reaction_error c e.
 Proof.
-  intros Hi st e s H. destruct Hi.
+  induction 1 as [toks F Hi| | | | | | |tok f a r vs toks2 F2 Hhf Hns Hl Hg Htv Hre Hf Hn Hlen Hall Hi2 IH
+                 |tok r0 ch a r vs toks2 F2 Hhf Hns He Hl Hs Hnx Hg Htv Hre Hnh Hf Hn Hlen Hall Hi2 IH]; intros st e s HF.
   - eapply item_err; eauto.
   - eapply react_all_err; eauto.
   - eapply sepm_fn_err; eauto.
   - eapply sepm_fn_err; eauto.
+  - eapply sepm_fn_err; eauto.
+  - eapply sepm_fn_err; eauto.
+  - eapply react_all_err; eauto.
+  - destruct (sepm_fn c ILong a vs st) as [st1|e1 s1|x] eqn:E; cbn [rbind] in HF.
+    + eapply IH; eauto.
+    + inversion HF; subst. eapply sepm_fn_err; eauto.
+    + discriminate.
+  - destruct (sepm_fn c IShort a vs st) as [st1|e1 s1|x] eqn:E; cbn [rbind] in HF.
+    + eapply IH; eauto.
+    + inversion HF; subst. eapply sepm_fn_err; eauto.
+    + discriminate.
 Qed.
 
 (** * Engine side *)
@@ -258,13 +476,24 @@ Hypothesis L : elevel pc cur.
 Let Hrel : lvl_rel pc cur := el_rel pc cur L.
 
 (** one value of a pending option: the count moves on, [ValueDone] when the range's maximum is reached *)
-Lemma eng_value_step v a r pi j evaf : no_sub pc v -> plain_tok v -> a_num a = Some r ->
+Lemma eng_value_step v a r pi j evaf : no_sub pc v -> plain_tok v -> check_terminator a v = false -> a_num a = Some r ->
   shadow_step v cur pi false (Opt a j) evaf = SNext cur pi false (if j <? vmax r then Opt a (j + 1) else ValueDone) evaf.
 Proof.
-  intros Hns [He [Hl Hs]] Hn. unfold shadow_step. cbn [negb]. rewrite (eng_no_sub pc cur v _ Hrel Hns).
+  intros Hns [He [Hl Hs]] Hct Hn. unfold shadow_step. cbn [negb]. rewrite (eng_no_sub pc cur v _ Hrel Hns).
   rewrite lex_is_escape, He, lex_to_long, Hl, lex_to_short, Hs.
-  unfold EngineModel.parse_opt_value. rewrite Hn.
+  unfold EngineModel.parse_opt_value. rewrite is_value_terminator_check, Hct, Hn.
   destruct (opt_allows_hyphen (Opt a j) v); reflexivity.
+Qed.
+
+(** the value terminator of the pending option: back in [ValueDone] whatever the count (the repair of finding
+    C18-value-terminator) *)
+Lemma eng_term_step t a pi j evaf : no_sub pc t -> plain_tok t -> check_terminator a t = true ->
+  shadow_step t cur pi false (Opt a j) evaf = SNext cur pi false ValueDone evaf.
+Proof.
+  intros Hns [He [Hl Hs]] Hct. unfold shadow_step. cbn [negb]. rewrite (eng_no_sub pc cur t _ Hrel Hns).
+  rewrite lex_is_escape, He, lex_to_long, Hl, lex_to_short, Hs.
+  unfold EngineModel.parse_opt_value. rewrite is_value_terminator_check, Hct.
+  destruct (opt_allows_hyphen (Opt a j) t); reflexivity.
 Qed.
 
 Lemma eng_values_full a r pi evaf : a_num a = Some r -> forall vs j, vs <> [] -> Forall (value_tok pc a) vs ->
@@ -272,8 +501,8 @@ Lemma eng_values_full a r pi evaf : a_num a = Some r -> forall vs j, vs <> [] ->
   shadow_run vs cur pi false (Opt a j) evaf = SNext cur pi false ValueDone evaf.
 Proof.
   intros Hn. induction vs as [|v t IH]; intros j Hne Hall Hlen; [contradiction|].
-  inversion Hall as [|v0 t0 [Hns [Hpl _]] Hall']; subst. cbn [shadow_run].
-  rewrite (eng_value_step v a r pi j evaf Hns Hpl Hn).
+  inversion Hall as [|v0 t0 [Hns [Hpl Hct]] Hall']; subst. cbn [shadow_run].
+  rewrite (eng_value_step v a r pi j evaf Hns Hpl Hct Hn).
   destruct t as [|v' t'].
   - cbn [length] in Hlen. replace (j <? vmax r) with false by (symmetry; apply N.ltb_ge; lia). reflexivity.
   - replace (j <? vmax r) with true by (symmetry; apply N.ltb_lt; cbn [length] in Hlen; lia).
@@ -286,24 +515,66 @@ Lemma eng_values_open a r pi evaf : a_num a = Some r -> forall vs j, Forall (val
 Proof.
   intros Hn. induction vs as [|v t IH]; intros j Hall Hlen.
   - cbn [shadow_run length N.of_nat]. rewrite N.add_0_r. reflexivity.
-  - inversion Hall as [|v0 t0 [Hns [Hpl _]] Hall']; subst. cbn [shadow_run].
-    rewrite (eng_value_step v a r pi j evaf Hns Hpl Hn).
+  - inversion Hall as [|v0 t0 [Hns [Hpl Hct]] Hall']; subst. cbn [shadow_run].
+    rewrite (eng_value_step v a r pi j evaf Hns Hpl Hct Hn).
     replace (j <? vmax r) with true by (symmetry; apply N.ltb_lt; cbn [length] in Hlen; lia).
     rewrite IH; [|exact Hall'|cbn [length] in *; lia].
     replace (j + 1 + N.of_nat (length t)) with (j + N.of_nat (length (v :: t))) by (cbn [length]; lia). reflexivity.
 Qed.
 
-Lemma eng_item18 toks F pi evaf : item18 pc toks F ->
+(** no positional of the level accepts hyphen values *)
+Lemma hyphen_free_pos pi : hyphen_free pc -> pos_allows_hyphen cur pi = false.
+Proof.
+  unfold hyphen_free, pos_allows_hyphen. intros H. destruct (find_pos cur pi) as [p|] eqn:Ef; [|reflexivity].
+  assert (Hin : In p (c_args pc)).
+  { rewrite (proj1 Hrel). unfold find_pos, positionals in Ef. apply find_some in Ef. destruct Ef as [Hin _].
+    apply filter_In in Hin. tauto. }
+  rewrite forallb_forall in H. specialize (H p Hin). apply andb_true_iff in H. destruct H as [_ H2].
+  apply negb_true_iff in H2. exact H2.
+Qed.
+
+(** the engine's run on an item while the option [a] is pending (any count): as between arguments *)
+Lemma eng_partial_then a k toks2 F2 pi evaf : hyphen_free pc -> find_arg pc (a_id a) = Some a -> item18 pc toks2 F2 ->
+  shadow_run toks2 cur pi false (Opt a k) evaf = shadow_run toks2 cur pi false ValueDone evaf.
+Proof.
+  intros Hhf Hf Hi. destruct (item18_head pc toks2 F2 Hi) as [t0 [ts [-> [Hns [He Hlex]]]]].
+  destruct (hyphen_free_arg pc a Hhf Hf) as [Hh _].
+  cbn [shadow_run]. rewrite (eng_opt_as_vd pc cur L t0 a k pi evaf Hh (hyphen_free_pos pi Hhf) Hns He); [reflexivity|].
+  destruct Hlex as [[f [v [b [Hl _]]]]|[_ [r [Hs _]]]]; [left; rewrite Hl; discriminate|right; rewrite Hs; discriminate].
+Qed.
+
+Lemma eng_item18 toks F : item18 pc toks F -> forall pi evaf,
   shadow_run toks cur pi false ValueDone evaf = SNext cur pi false ValueDone true.
 Proof.
-  intros Hi. destruct Hi.
+  induction 1 as [toks F Hi| | | | | | |tok f a r vs toks2 F2 Hhf Hns Hl Hg Htv Hre Hf Hn Hlen Hall Hi2 IH
+                 |tok r0 ch a r vs toks2 F2 Hhf Hns He Hl Hs Hnx Hg Htv Hre Hnh Hf Hn Hlen Hall Hi2 IH]; intros pi evaf.
   - apply (eng_item pc cur L toks F pi evaf). assumption.
   - (* -o=v *) cbn [shadow_run]. rewrite (eng_short_opt pc cur L tok r ch (61 :: v) a pi evaf) by assumption. reflexivity.
   - (* --opt v1 .. vk *) cbn [shadow_run]. rewrite (eng_long pc cur L tok f None a pi evaf) by assumption.
-    match goal with H : a_takes_value a = true |- _ => rewrite H end. cbn [is_none andb].
+    match goal with H : a_takes_value a = true |- _ => rewrite H end.
+    match goal with H : a_req_eq a = false |- _ => rewrite H end. cbn [is_none andb negb].
     apply (eng_values_full a r pi true); try assumption. lia.
-  - (* -o v1 .. vk *) cbn [shadow_run]. rewrite (eng_short_opt pc cur L tok r0 ch [] a pi evaf) by assumption. cbn [is_nil].
+  - (* -o v1 .. vk *) cbn [shadow_run]. rewrite (eng_short_opt pc cur L tok r0 ch [] a pi evaf) by assumption.
+    match goal with H : a_req_eq a = false |- _ => rewrite H end. cbn [is_nil andb negb].
     apply (eng_values_full a r pi true); try assumption. lia.
+  - (* --opt v1 .. vj ; *) cbn [shadow_run]. rewrite (eng_long pc cur L tok f None a pi evaf) by assumption.
+    match goal with H : a_takes_value a = true |- _ => rewrite H end.
+    match goal with H : a_req_eq a = false |- _ => rewrite H end. cbn [is_none andb negb].
+    rewrite shadow_run_app, (eng_values_open a r pi true) by (try assumption; lia).
+    cbn [shadow_run]. rewrite (eng_term_step t a pi _ true) by assumption. reflexivity.
+  - (* -o v1 .. vj ; *) cbn [shadow_run]. rewrite (eng_short_opt pc cur L tok r0 ch [] a pi evaf) by assumption.
+    match goal with H : a_req_eq a = false |- _ => rewrite H end. cbn [is_nil andb negb].
+    rewrite shadow_run_app, (eng_values_open a r pi true) by (try assumption; lia).
+    cbn [shadow_run]. rewrite (eng_term_step t a pi _ true) by assumption. reflexivity.
+  - (* --opt, requires `=` *) cbn [shadow_run]. rewrite (eng_long pc cur L tok f None a pi evaf) by assumption.
+    match goal with H : a_req_eq a = true |- _ => rewrite H end. rewrite andb_false_r. reflexivity.
+  - (* --opt v1 .. vj, then an item *) cbn [shadow_run]. rewrite (eng_long pc cur L tok f None a pi evaf Hns Hl Hg), Htv, Hre. cbn [is_none andb negb].
+    rewrite shadow_run_app, (eng_values_open a r pi true Hn vs 1 Hall) by lia.
+    rewrite (eng_partial_then a _ toks2 F2 pi true Hhf Hf Hi2). apply IH.
+  - (* -o v1 .. vj, then an item *) cbn [shadow_run].
+    rewrite (eng_short_opt pc cur L tok r0 ch [] a pi evaf Hns He Hl Hs Hnx Hg Htv), Hre. cbn [is_nil andb negb].
+    rewrite shadow_run_app, (eng_values_open a r pi true Hn vs 1 Hall) by lia.
+    rewrite (eng_partial_then a _ toks2 F2 pi true Hhf Hf Hi2). apply IH.
 Qed.
 End EngineItems18.
 
@@ -319,7 +590,7 @@ Theorem values_agree pc cur tok f a r vs : elevel pc cur ->
      (do st' <- sepm_fn pc ILong a vs st; parse_loop pc rest (mkL (PSOpt (a_id a)) pos true false) st')).
 Proof.
   intros L Hns Hl Hg Htv Hre Hf Hn Hlen Hall. split.
-  - intros pi evaf. cbn [shadow_run]. rewrite (eng_long pc cur L tok f None a pi evaf Hns Hl Hg), Htv. cbn [is_none andb].
+  - intros pi evaf. cbn [shadow_run]. rewrite (eng_long pc cur L tok f None a pi evaf Hns Hl Hg), Htv, Hre. cbn [is_none andb negb].
     apply (eng_values_open pc cur L a r pi true Hn vs 1 Hall). lia.
   - intros rest pos vaf st.
     rewrite (loop_long_open pc tok f a (vs ++ rest) pos vaf st Hns Hl Hg Htv Hre).
@@ -327,6 +598,57 @@ Proof.
     rewrite (loop_values_open pc a r Hf Hn vs rest pos true _ (mkPending (a_id a) (Some ILong) [] None) Hall);
       [|cbn [p_raw length]; lia|reflexivity|reflexivity].
     cbn [p_raw]. rewrite with_raw_open. reflexivity.
+Qed.
+
+(** * The value terminator of a positional *)
+
+(** [parse_positional]'s number of values the positional may still take *)
+Definition eng_num_args (a : arg) : N :=
+  match a_get_action a with
+  | AAppend => usize_max
+  | _ => match a_num a with Some r => vmax r | None => 1 end
+  end.
+
+(** [tok] is the value terminator of the positional [a] at the counter ([ChainWide.takes_at] with the opposite answer
+    of [check_terminator]) *)
+Definition term_at (c : cmd) (pos : N) (a : arg) (tok : bytes) : Prop :=
+  pos_plain c /\ get_pos c pos = Some a /\ a_last a = false /\ a_tva a = false /\ check_terminator a tok = true.
+
+(** what the loop does with the terminator: the pending occurrence of another argument (or of a positional that does
+    not take multiple values) is flushed; the word itself is dropped *)
+Definition term_fn (c : cmd) (a : arg) (st : ps) : res ps :=
+  if negb (match pending_arg_id (mt st) with Some i => beq i (a_id a) | None => false end) || negb (a_multiple_values a)
+  then resolve_pending c st else ROk st.
+
+Lemma term_fn_fs c a st st' : term_fn c a st = ROk st' -> fs_skip st' = fs_skip st /\ fs_at st' = fs_at st.
+Proof.
+  unfold term_fn. destruct (_ || _).
+  - intros H. split; [exact (resolve_pending_fs c st st' H)|exact (resolve_pending_fsat c st st' H)].
+  - intros H. inversion H. split; reflexivity.
+Qed.
+
+Lemma term_fn_err c a st e s : term_fn c a st = RErr e s -> reaction_error c e.
+Proof.
+  unfold term_fn. destruct (_ || _); [|discriminate]. intros H. eapply resolve_pending_err; eauto.
+Qed.
+
+(** the loop on the terminator of the positional at the counter, between arguments or while that positional is being
+    filled: the counter moves on, back in [ValuesDone] *)
+Lemma loop_pos_term c pst tok a rest pos vaf st :
+  match pst with PSOpt _ => False | _ => True end ->
+  (if is_set s_sub_precedence c || match pst with PSValuesDone => true | _ => false end
+   then possible_subcommand c tok vaf else None) = None ->
+  plain_tok tok -> term_at c pos a tok ->
+  parse_loop c (tok :: rest) (mkL pst pos vaf false) st =
+  (do st' <- term_fn c a st; parse_loop c rest (lsV (pos + 1) true) st').
+Proof.
+  intros Hpst Hns [He [Hl Hs]] [[Hmiss Hlow] [Hg [Hlast [Htva Hct]]]].
+  cbn [parse_loop l_trailing l_pst l_vaf l_pos].
+  rewrite Hns, He, Hl, Hs. cbn [rbind l_trailing l_pst l_vaf l_pos].
+  unfold term_fn, lsV.
+  destruct pst as [|i|i]; [|contradiction|];
+    cbv zeta; rewrite Hlow, Hmiss; rewrite !andb_false_r; cbn [andb orb rbind]; rewrite Hg, Hlast, Htva, Hct; cbn [andb orb];
+    reflexivity.
 Qed.
 
 (** * [pitems18]: options ([item18]) and single-valued positionals; the indices are the parser's "an argument was
@@ -340,7 +662,17 @@ Inductive pitems18 (c : cmd) : bool -> N -> list bytes -> (ps -> res ps) -> N ->
 | p18_pos vaf pos tok a pre G pos' :
     possible_subcommand c tok vaf = None -> plain_tok tok -> takes_at c pos a tok -> a_is_multiple a = false ->
     pitems18 c true (pos + 1) pre G pos' ->
-    pitems18 c vaf pos (tok :: pre) (fun st => do st' <- sep_fn c IIndex a tok st; G st') pos'.
+    pitems18 c vaf pos (tok :: pre) (fun st => do st' <- sep_fn c IIndex a tok st; G st') pos'
+| p18_term vaf pos t a pre G pos' :   (* the terminator of the positional at the counter as the first word: it is skipped *)
+    possible_subcommand c t vaf = None -> plain_tok t -> term_at c pos a t ->
+    pitems18 c true (pos + 1) pre G pos' ->
+    pitems18 c vaf pos (t :: pre) (fun st => do st' <- term_fn c a st; G st') pos'
+| p18_multi_term vaf pos a v1 vs t pre G pos' :  (* `v1 .. vk ;`: values of a multi-valued positional, then its terminator *)
+    multi_vals c pos a v1 vs -> N.of_nat (length (v1 :: vs)) < eng_num_args a ->
+    (is_set s_sub_precedence c = true -> no_sub c t) -> plain_tok t -> term_at c pos a t ->
+    pitems18 c true (pos + 1) pre G pos' ->
+    pitems18 c vaf pos ((v1 :: vs) ++ t :: pre)
+             (fun st => do st' <- push_all c a (v1 :: vs) st; do st'' <- term_fn c a st'; G st'') pos'.
 
 Lemma pitems_pitems18 c pos pre F pos' : pitems c pos pre F pos' -> forall vaf, pitems18 c vaf pos pre F pos'.
 Proof.
@@ -353,19 +685,27 @@ Qed.
 Lemma pitems18_fs c vaf pos pre F pos' : pitems18 c vaf pos pre F pos' -> forall st st', F st = ROk st' ->
   fs_skip st' = fs_skip st /\ fs_at st' = fs_at st.
 Proof.
-  induction 1 as [vaf pos|vaf pos toks F pre G pos' Hi Hp IH|vaf pos tok a pre G pos' Hns Hpl Ht Hm Hp IH]; intros st st' H.
+  induction 1 as [vaf pos|vaf pos toks F pre G pos' Hi Hp IH|vaf pos tok a pre G pos' Hns Hpl Ht Hm Hp IH
+                   |vaf pos t a pre G pos' Hns Hpl Ht Hp IH|vaf pos a v1 vs t pre G pos' Hmv Hlen Hns Hpl Ht Hp IH]; intros st st' H.
   - inversion H. split; reflexivity.
   - destruct (F st) as [st1|e s1|x] eqn:E; cbn [rbind] in H; try discriminate.
     destruct (IH _ _ H) as [H1 H2]. destruct (item18_fs c toks F Hi _ _ E) as [H3 H4]. rewrite H1, H2. split; assumption.
   - destruct (sep_fn c IIndex a tok st) as [st1|e s1|x] eqn:E; cbn [rbind] in H; try discriminate.
     destruct (IH _ _ H) as [H1 H2]. destruct (sep_fn_fs _ _ _ _ _ _ E) as [H3 H4]. rewrite H1, H2. split; assumption.
+  - destruct (term_fn c a st) as [st1|e s1|x] eqn:E; cbn [rbind] in H; try discriminate.
+    destruct (IH _ _ H) as [H1 H2]. destruct (term_fn_fs _ _ _ _ E) as [H3 H4]. rewrite H1, H2. split; assumption.
+  - destruct (push_all c a (v1 :: vs) st) as [st1|e s1|x] eqn:E; cbn [rbind] in H; try discriminate.
+    destruct (term_fn c a st1) as [st2|e s2|x] eqn:E2; cbn [rbind] in H; try discriminate.
+    destruct (IH _ _ H) as [H1 H2]. destruct (term_fn_fs _ _ _ _ E2) as [H3 H4]. destruct (push_all_fs _ _ _ _ _ E) as [H5 H6].
+    rewrite H1, H2, H3, H4. split; assumption.
 Qed.
 
 Theorem loop_pitems18 c vaf pos pre F pos' : pitems18 c vaf pos pre F pos' -> forall rest st, fs_skip st = 0 ->
   parse_loop c (pre ++ rest) (lsV pos vaf) st =
   (do st' <- F st; parse_loop c rest (lsV pos' (vaf || negb (is_nil pre))) st').
 Proof.
-  induction 1 as [vaf pos|vaf pos toks F pre G pos' Hi Hp IH|vaf pos tok a pre G pos' Hns Hpl Ht Hm Hp IH]; intros rest st Hfs.
+  induction 1 as [vaf pos|vaf pos toks F pre G pos' Hi Hp IH|vaf pos tok a pre G pos' Hns Hpl Ht Hm Hp IH
+                   |vaf pos t a pre G pos' Hns Hpl Ht Hp IH|vaf pos a v1 vs t pre G pos' Hmv Hlen Hns Hpl Ht Hp IH]; intros rest st Hfs.
   - cbn [app rbind is_nil negb]. rewrite orb_false_r. reflexivity.
   - rewrite <- app_assoc, (item18_step c toks F Hi (pre ++ rest) pos vaf st Hfs).
     destruct (F st) as [st1|e s1|x] eqn:E; cbn [rbind]; try reflexivity.
@@ -379,6 +719,20 @@ Proof.
     destruct (sep_fn c IIndex a tok st) as [st1|e s1|x] eqn:E; cbn [rbind]; try reflexivity.
     destruct (sep_fn_fs _ _ _ _ _ _ E) as [H3 _].
     rewrite IH by (rewrite H3; exact Hfs). cbn [is_nil negb orb]. rewrite orb_true_r. reflexivity.
+  - cbn [app]. unfold lsV at 1.
+    rewrite (loop_pos_term c PSValuesDone t a (pre ++ rest) pos vaf st I); [| |exact Hpl|exact Ht].
+    2:{ rewrite orb_true_r. exact Hns. }
+    destruct (term_fn c a st) as [st1|e s1|x] eqn:E; cbn [rbind]; try reflexivity.
+    destruct (term_fn_fs _ _ _ _ E) as [H3 _].
+    rewrite IH by (rewrite H3; exact Hfs). cbn [is_nil negb orb]. rewrite orb_true_r. reflexivity.
+  - rewrite <- app_assoc. rewrite (loop_multi c pos a v1 vs Hmv ((t :: pre) ++ rest) vaf st).
+    destruct (push_all c a (v1 :: vs) st) as [st1|e s1|x] eqn:E; cbn [rbind]; try reflexivity.
+    destruct (push_all_fs _ _ _ _ _ E) as [H5 _]. cbn [app].
+    rewrite (loop_pos_term c (PSPos (a_id a)) t a (pre ++ rest) pos true st1 I); [| |exact Hpl|exact Ht].
+    2:{ rewrite orb_false_r. destruct (is_set s_sub_precedence c) eqn:Ep; [|reflexivity]. apply (Hns eq_refl). }
+    destruct (term_fn c a st1) as [st2|e s2|x] eqn:E2; cbn [rbind]; try reflexivity.
+    destruct (term_fn_fs _ _ _ _ E2) as [H3 _].
+    rewrite IH by (rewrite H3, H5; exact Hfs). cbn [is_nil negb orb]. rewrite orb_true_r. reflexivity.
 Qed.
 
 Lemma sep_fn_err c idn a v st e s : sep_fn c idn a v st = RErr e s -> reaction_error c e.
@@ -387,9 +741,29 @@ Proof.
   intros H. inversion H; subst. eapply resolve_pending_err; eauto.
 Qed.
 
+Lemma pos_push_err c a v st e s : pos_push c a v st = RErr e s -> reaction_error c e.
+Proof.
+  unfold pos_push.
+  destruct (negb _ || negb _).
+  - destruct (resolve_pending c st) as [st1|e1 s1|x] eqn:RP; cbn [rbind]; try discriminate.
+    + destruct (pending_values_push _ _ _ _ _); cbn [expect rbind]; discriminate.
+    + intros H. inversion H; subst. eapply resolve_pending_err; eauto.
+  - cbn [rbind]. destruct (pending_values_push _ _ _ _ _); cbn [expect rbind]; discriminate.
+Qed.
+
+Lemma push_all_err c a : forall vs st e s, push_all c a vs st = RErr e s -> reaction_error c e.
+Proof.
+  induction vs as [|v t IH]; intros st e s H; cbn [push_all] in H; [discriminate|].
+  destruct (pos_push c a v st) as [st1|e1 s1|x] eqn:E; cbn [rbind] in H.
+  - eapply IH; eauto.
+  - inversion H; subst. eapply pos_push_err; eauto.
+  - discriminate.
+Qed.
+
 Lemma pitems18_err c vaf pos pre F pos' : pitems18 c vaf pos pre F pos' -> forall st e s, F st = RErr e s -> reaction_error c e.
 Proof.
-  induction 1 as [vaf pos|vaf pos toks F pre G pos' Hi Hp IH|vaf pos tok a pre G pos' Hns Hpl Ht Hm Hp IH]; intros st e s H.
+  induction 1 as [vaf pos|vaf pos toks F pre G pos' Hi Hp IH|vaf pos tok a pre G pos' Hns Hpl Ht Hm Hp IH
+                   |vaf pos t a pre G pos' Hns Hpl Ht Hp IH|vaf pos a v1 vs t pre G pos' Hmv Hlen Hns Hpl Ht Hp IH]; intros st e s H.
   - discriminate.
   - destruct (F st) as [st1|e1 s1|x] eqn:E; cbn [rbind] in H.
     + eapply IH; eauto.
@@ -399,47 +773,96 @@ Proof.
     + eapply IH; eauto.
     + inversion H; subst. eapply sep_fn_err; eauto.
     + discriminate.
+  - destruct (term_fn c a st) as [st1|e1 s1|x] eqn:E; cbn [rbind] in H.
+    + eapply IH; eauto.
+    + inversion H; subst. eapply term_fn_err; eauto.
+    + discriminate.
+  - destruct (push_all c a (v1 :: vs) st) as [st1|e1 s1|x] eqn:E; cbn [rbind] in H.
+    + destruct (term_fn c a st1) as [st2|e2 s2|x] eqn:E2; cbn [rbind] in H.
+      * eapply IH; eauto.
+      * inversion H; subst. eapply term_fn_err; eauto.
+      * discriminate.
+    + inversion H; subst. eapply push_all_err; eauto.
+    + discriminate.
 Qed.
 
-(** * A value terminator is unknown to the engine *)
+(** * Value terminators: finding C18-value-terminator, before and after the repair *)
 Module Term.
 Definition w_opt : bytes := [111; 112; 116].
 Definition w_sub : bytes := [115; 117; 98].
 Definition w_so : bytes := [115; 111].
+Definition w_pf : bytes := [112; 102].
+Definition w_files : bytes := [102; 105; 108; 101; 115].
 Definition semi : bytes := [59].
+Definition sub : cmd :=
+  (cmd_new w_sub) <| c_args := [ (arg_new w_so) <| a_long := Some w_so |> <| a_action := Some ASetTrue |> ] |>.
 (** p(--opt <v>{1..3}, value_terminator ";") -> sub(--so) *)
 Definition c0 : cmd :=
   (cmd_new [112])
     <| c_args := [ (arg_new w_opt) <| a_long := Some w_opt |> <| a_action := Some ASet |>
                      <| a_num := Some {| vmin := 1; vmax := 3 |} |> <| a_term := Some semi |> ] |>
-    <| c_subs := [ (cmd_new w_sub) <| c_args := [ (arg_new w_so) <| a_long := Some w_so |> <| a_action := Some ASetTrue |> ] |> ] |>.
-Definition ddopt : bytes := 45 :: 45 :: w_opt.
+    <| c_subs := [ sub ] |>.
+(** p(--pf; <files>{1..}, value_terminator ";") -> sub(--so) *)
+Definition c1 : cmd :=
+  (cmd_new [112])
+    <| c_args := [ (arg_new w_pf) <| a_long := Some w_pf |> <| a_action := Some ASetTrue |>;
+                   (arg_new w_files) <| a_action := Some ASet |>
+                     <| a_num := Some {| vmin := 1; vmax := usize_max |} |> <| a_term := Some semi |> ] |>
+    <| c_subs := [ sub ] |>.
+Definition dd (w : bytes) : bytes := 45 :: 45 :: w.
+Definition ddopt : bytes := dd w_opt.
 Definition line : list bytes := [ddopt; [97]; semi; w_sub].
+Definition line1 : list bytes := [[97]; semi; w_sub].
 Definition has_cand (v : bytes) (i : cid) (r : cres) : bool :=
   match r with COk l => existsb (fun cd => beq (cd_value cd) v && opt_cid_eqb (cd_id cd) (Some i)) l | _ => false end.
-Definition walk_at (args : list bytes) (i : N) : option (bytes * N) :=
-  match build_full (build_fuel c0) c0 with
-  | BOk b => match start_walk b args i with
-             | WAt _ cur _ ValueDone false _ => Some (c_name cur, 0)
-             | WAt _ cur _ (Opt _ k) false _ => Some (c_name cur, k)
-             | _ => None end
+(** where the walk stands: level, and 0 = [ValueDone] / the count of the [Opt] or [Pos] state *)
+Definition stands (w : walk) : option (bytes * N) :=
+  match w with
+  | WAt _ cur _ ValueDone false _ => Some (c_name cur, 0)
+  | WAt _ cur _ (Opt _ k) false _ => Some (c_name cur, k)
+  | WAt _ cur _ (Pos _ k) false _ => Some (c_name cur, k)
   | _ => None end.
+Definition walk_at (c : cmd) (args : list bytes) (i : N) : option (bytes * N) :=
+  match build_full (build_fuel c) c with BOk b => stands (start_walk b args i) | _ => None end.
+Definition walk_at_before (c : cmd) (args : list bytes) (i : N) : option (bytes * N) :=
+  match build_full (build_fuel c) c with BOk b => stands (start_walk_before_termfix b args i) | _ => None end.
 Definition kind_of (o : outcome) : option ekind := match o with OErr e => Some (e_kind e) | _ => None end.
 Definition chain_of (o : outcome) : option (list bytes) := match o with OOk m => Some (Globals.chain m) | _ => None end.
 End Term.
 
-(** `p --opt a ; <TAB>`: the parser has closed the occurrence at the terminator ([ValuesDone]); the engine counts `;`
-    as the second value and stands in [Opt _ 3].  `p --opt a ; sub <TAB>`: the parser ACCEPTS the line and has
-    dispatched to `sub`; for the engine `sub` is the third value, it stays at `p` and offers `--opt` (id arg::opt)
-    of `p`; the completed line `p --opt a ; sub --opt` is rejected: UnknownArgument.  (The premise
-    [check_terminator a v = false] of [value_tok] cannot be dropped; same on the real crate:
+(** BEFORE / AFTER.  Option, `p(--opt <v>{1..3} terminator ";") -> sub(--so)`: the parser ACCEPTS `p --opt a ; sub` and has
+    dispatched to `sub` (the terminator closed the occurrence and was dropped).  Before the repair the engine counted `;` as
+    the second value ([Opt _ 3] behind `p --opt a ;`), took `sub` for the third, stayed at `p` and offered `--opt`
+    (id arg::opt) of `p`; the completed line `p --opt a ; sub --opt` is rejected: UnknownArgument.  After: behind
+    `p --opt a ;` the engine stands in [ValueDone] at `p`, behind `p --opt a ; sub` at `sub`; it offers `--so` and not `--opt`,
+    and `p --opt a ; sub --so` is accepted.
+    Positional, `p(--pf; <files>{1..} terminator ";") -> sub(--so)`: the same with `p a ; sub`: before, [Pos _ 3] at `p`, `--pf`
+    offered, `p a ; sub --pf` UnknownArgument; after, [ValueDone] at `sub`.  (Same on the real crate:
     corpus/C18/accept.value-terminator.cases) *)
-Theorem terminator_refuted :
-  Term.walk_at ([112] :: [Term.ddopt; [97]; Term.semi] ++ [[]]) 4 = Some ([112], 3) /\
+Theorem terminator_before_after :
+  (* option: the parser *)
   Term.chain_of (parse_top Term.c0 ([112] :: Term.line)) = Some [Term.w_sub] /\
-  Term.walk_at ([112] :: Term.line ++ [[45; 45]]) 5 = Some ([112], 0) /\
-  Term.has_cand Term.ddopt (IdArg Term.w_opt) (complete_model [] Term.c0 ([112] :: Term.line ++ [[45; 45]]) 5) = true /\
-  Term.kind_of (parse_top Term.c0 ([112] :: Term.line ++ [Term.ddopt])) = Some EUnknownArgument.
+  Term.kind_of (parse_top Term.c0 ([112] :: Term.line ++ [Term.ddopt])) = Some EUnknownArgument /\
+  Term.chain_of (parse_top Term.c0 ([112] :: Term.line ++ [Term.dd Term.w_so])) = Some [Term.w_sub] /\
+  (* option: before *)
+  Term.walk_at_before Term.c0 ([112] :: [Term.ddopt; [97]; Term.semi] ++ [[]]) 4 = Some ([112], 3) /\
+  Term.walk_at_before Term.c0 ([112] :: Term.line ++ [[45; 45]]) 5 = Some ([112], 0) /\
+  Term.has_cand Term.ddopt (IdArg Term.w_opt) (complete_model_before_termfix [] Term.c0 ([112] :: Term.line ++ [[45; 45]]) 5) = true /\
+  (* option: after *)
+  Term.walk_at Term.c0 ([112] :: [Term.ddopt; [97]; Term.semi] ++ [[]]) 4 = Some ([112], 0) /\
+  Term.walk_at Term.c0 ([112] :: Term.line ++ [[45; 45]]) 5 = Some (Term.w_sub, 0) /\
+  Term.has_cand Term.ddopt (IdArg Term.w_opt) (complete_model [] Term.c0 ([112] :: Term.line ++ [[45; 45]]) 5) = false /\
+  Term.has_cand (Term.dd Term.w_so) (IdArg Term.w_so) (complete_model [] Term.c0 ([112] :: Term.line ++ [[45; 45]]) 5) = true /\
+  (* positional: the parser *)
+  Term.chain_of (parse_top Term.c1 ([112] :: Term.line1)) = Some [Term.w_sub] /\
+  Term.kind_of (parse_top Term.c1 ([112] :: Term.line1 ++ [Term.dd Term.w_pf])) = Some EUnknownArgument /\
+  (* positional: before *)
+  Term.walk_at_before Term.c1 ([112] :: Term.line1 ++ [[45; 45]]) 4 = Some ([112], 3) /\
+  Term.has_cand (Term.dd Term.w_pf) (IdArg Term.w_pf) (complete_model_before_termfix [] Term.c1 ([112] :: Term.line1 ++ [[45; 45]]) 4) = true /\
+  (* positional: after *)
+  Term.walk_at Term.c1 ([112] :: Term.line1 ++ [[45; 45]]) 4 = Some (Term.w_sub, 0) /\
+  Term.has_cand (Term.dd Term.w_pf) (IdArg Term.w_pf) (complete_model [] Term.c1 ([112] :: Term.line1 ++ [[45; 45]]) 4) = false /\
+  Term.has_cand (Term.dd Term.w_so) (IdArg Term.w_so) (complete_model [] Term.c1 ([112] :: Term.line1 ++ [[45; 45]]) 4) = true.
 Proof. vm_compute. repeat split; reflexivity. Qed.
 
 (** STATE AGREEMENT on one item of the wider class, both machines *)
@@ -448,5 +871,5 @@ Theorem state_agreement_item18 pc cur toks F : elevel pc cur -> item18 pc toks F
   (forall rest pos vaf st, fs_skip st = 0 ->
      parse_loop pc (toks ++ rest) (lsV pos vaf) st = (do st' <- F st; parse_loop pc rest (lsV pos true) st')).
 Proof.
-  intros L Hi. split; [intros pi vaf; exact (eng_item18 pc cur L toks F pi vaf Hi)|exact (item18_step pc toks F Hi)].
+  intros L Hi. split; [intros pi vaf; exact (eng_item18 pc cur L toks F Hi pi vaf)|exact (item18_step pc toks F Hi)].
 Qed.
